@@ -494,7 +494,10 @@ class VectorT {
         /// compute L1 (Manhattan) norm
         Scalar l1_norm() const {
             return std::accumulate(
-                    values_.cbegin() + 1, values_.cend(), values_[0]);
+                    values_.cbegin(), values_.cend(), Scalar(0),
+                    [](const Scalar &l, const Scalar &r) {
+                        return r < Scalar(0) ? l - r : l + r;
+                    });
         }
 
         /// compute l8_norm
@@ -539,7 +542,8 @@ class VectorT {
 
         /// return arithmetic mean
         Scalar mean() const {
-            return l1_norm()/DIM;
+            return std::accumulate(
+                    values_.cbegin() + 1, values_.cend(), values_[0]) / DIM;
         }
 
         /// return absolute arithmetic mean
